@@ -22,7 +22,8 @@ RULE = ("directed mpf values man*2^exp: ties (midpoint +- 2^-k at precisions p+1
 ASSUME = ["mpmath mpf (sign, man, exp) is the exact value; mpmath +,-,*,sqrt are correctly rounded at the working precision",
           "for sqrt/exp the reference is certified Ziv-style at two precisions; uncertifiable cases are skipped and counted"]
 REQUIRE = ["evaluations", "contract:utils.mpf2float:evaluated", "judged:normal", "judged:overflow", "judged:zero", "backend:judged",
-           "backend:subnormal-in", "backend:flush-unspecified", "backend:flush-True", "backend:flush-False"]
+           "backend:subnormal-in", "backend:flush-unspecified", "backend:flush-True", "backend:flush-False",
+           "backend:working-precision-judged", "backend:layouts-judged", "backend:float16-default-judged"]
 
 
 def mpf_value(m):
@@ -191,13 +192,18 @@ def task_directed(params, rec):
 
 
 # ---------------------------------------------------------------- backend monitor
+_CTX = {}
+
+
 def certified_rn(fn_mp, x, dt):
     """Ziv: evaluate fn on exact float x at two precisions; return RN or None if not certifiable"""
     p = exact.fmt(dt).p
     prev = None
     for prec in (4 * p + 64, 8 * p + 128, 16 * p + 256):
-        ctx = mpmath.mp.clone()
-        ctx.prec = prec
+        ctx = _CTX.get(prec)
+        if ctx is None:
+            ctx = _CTX[prec] = mpmath.mp.clone()
+            ctx.prec = prec
         xv = ctx.mpf(exact.frac(x).numerator) / ctx.mpf(exact.frac(x).denominator)
         v = fn_mp(ctx, xv)
         if not ctx.isfinite(v):
@@ -221,7 +227,24 @@ FUNCS = {
     "sqrt": (lambda x: x.context.sqrt(x) if x >= 0 else x, None, "ziv"),
     "exp": (lambda x: x.context.exp(x), None, "ziv"),
 }
-SETTINGS = [dict(), dict(extra_prec=5), dict(extra_prec_multiplier=1), dict(extra_prec_multiplier=2, extra_prec=7), dict(extra_prec_multiplier=20)]
+FUNCS["sqm1"] = (lambda x: x * x - 1, lambda q: q * q - 1, "fits")
+SETTINGS = [dict(), dict(extra_prec=5), dict(extra_prec_multiplier=1), dict(extra_prec_multiplier=2, extra_prec=7), dict(extra_prec_multiplier=20),
+            dict(extra_prec_multiplier=0.5), dict(extra_prec_multiplier=0.75, extra_prec=2), dict(extra_prec_multiplier=2.5, extra_prec=3)]
+
+
+def short_near_one(rng, dt, bits, count):
+    """x in [0.5, 2) with at most `bits` significant bits, clustered at 1 +- k 2^-s: x*x is exact in 2*bits bits and x*x - 1 is then exact as well
+    (1 is a multiple of the last place of x*x and the difference is smaller in magnitude)"""
+    out = []
+    for _ in range(count):
+        s_ = int(rng.integers(2, bits))
+        k = int(rng.integers(1, 1 << min(s_ - 1, 12))) | 1
+        x = 1 + (k if rng.random() < 0.5 else -k) * 2.0 ** -s_
+        if not 0.5 <= x < 2:
+            x = 1 + 2.0 ** -s_
+        out.append(x)
+    a = numpy.array(out, dtype=numpy.float64).astype(dt)
+    return a
 
 
 def task_backend(params, rec):
@@ -242,14 +265,20 @@ def task_backend(params, rec):
                 continue  # the product would be rounded twice: not the backend's plumbing
             if need == "ziv" and extra_bits_min < 2 * f.p:
                 continue
+            if need == "fits" and extra_bits_min < 4:
+                continue
             for flush in ("unspecified", False, True):
                 kw = dict(st)
                 if flush != "unspecified":
                     kw["flush_subnormals"] = flush
                 vf = utils.vectorize_with_mpmath(fn, **kw)
                 # scalar and array call forms, and .call(workers=1)
-                form = int(rng.integers(0, 3))
+                form = int(rng.integers(0, 5))
                 sel = xs[rng.integers(0, n, size=params["per"])]
+                if need == "fits":
+                    # inputs whose square fits the working precision the settings ask for (p + extra bits): with less than that the product is rounded
+                    sel = short_near_one(rng, dt, (f.p + extra_bits_min) // 2, params["per"])
+                    rec.count("backend:working-precision-judged", len(sel))
                 if fname == "sqrt":
                     sel = numpy.abs(sel)
                 if fname == "exp":
@@ -260,6 +289,22 @@ def task_backend(params, rec):
                         res = numpy.array([vf(dt(x)) for x in sel], dtype=dt)
                     elif form == 1:
                         res = vf(sel)
+                    elif form >= 3:
+                        # N-d arrays that are not C-contiguous (Fortran copies, transposed / axes-permuted views): result[i] belongs to input[i]
+                        m_ = (len(sel) // 6) * 6
+                        if m_ == 0:
+                            continue
+                        sel = sel[:m_]
+                        base = sel.reshape(m_ // 6, 3, 2)
+                        lay = int(rng.integers(0, 4))
+                        arr = [numpy.asfortranarray(base), base.transpose(2, 0, 1), numpy.asfortranarray(base.reshape(m_ // 2, 2)), base.reshape(m_ // 3, 3).T][lay]
+                        res = vf(arr)
+                        rec.count("backend:layouts-judged", arr.size)
+                        if getattr(res, "shape", None) != arr.shape:
+                            rec.violation("backend-array-shape", dict(dtype=params["dtype"], fn=fname, layout=lay, got=str(getattr(res, "shape", None)), expected=str(arr.shape)))
+                            continue
+                        sel = numpy.ascontiguousarray(arr).reshape(-1)
+                        res = numpy.ascontiguousarray(res).reshape(-1)
                     else:
                         res = numpy.array(vf.call([dt(x) for x in sel], workers=1), dtype=dt)
                 except Exception as e:
@@ -395,7 +440,50 @@ def task_backend_complex(params, rec):
     contracts.detach_all()
 
 
-TASKS = {"directed": task_directed, "backend": task_backend, "backend_complex": task_backend_complex}
+F16 = {"exp": lambda c, v: c.exp(v), "log": lambda c, v: c.log(v), "arctan": lambda c, v: c.atan(v), "arcsinh": lambda c, v: c.asinh(v), "sqrt": lambda c, v: c.sqrt(v)}
+
+
+def task_backend_f16(params, rec):
+    """default settings, every normal float16 input: the working precision is the 11 bits of the type, and mpmath's exp / log / atan / asinh / sqrt round
+    correctly at that precision for every float16 (that is what this run establishes on the tree as it is), so the result is the correctly rounded one -
+    unless the backend evaluates somewhere else and rounds twice (1 ULP at the handful of inputs whose value sits next to an 11-bit tie)"""
+    from functional_algorithms import utils
+
+    install(rec, utils)
+    dt = numpy.float16
+    f = exact.fmt(dt)
+    name = params["fn"]
+    bits = numpy.arange(0, 1 << 16, dtype=numpy.uint16)
+    x = bits.view(dt)
+    x = x[numpy.isfinite(x) & (numpy.abs(x) >= numpy.finfo(dt).smallest_normal)]
+    if name in ("log", "sqrt"):
+        x = x[x > 0]
+    if name == "exp":
+        x = x[numpy.abs(x) < 9.5]
+    nm = utils.numpy_with_mpmath()
+    res = getattr(nm, name)(x)
+    if getattr(res, "dtype", None) != numpy.dtype(dt):
+        rec.violation("backend-dtype", dict(dtype="float16", fn=name, got=str(getattr(res, "dtype", type(res)))))
+        contracts.detach_all()
+        return
+    for xi, r in zip(x, res):
+        c = certified_rn(F16[name], xi, dt)
+        rec.count("evaluations")
+        if c is None:
+            rec.count("backend:uncertified")
+            continue
+        e, q = c
+        if q == 0 or abs(exact.frac(e)) < f.min_normal or not numpy.isfinite(e):
+            continue
+        rec.count("backend:float16-default-judged")
+        if exact.bits_of(dt(r)) != exact.bits_of(e):
+            rec.violation("backend-float16-default-result", dict(dtype="float16", fn=name, x=xi, got=dt(r), expected=e))
+        rec.cls("backend-f16", name, int(numpy.frexp(numpy.float64(xi))[1]))
+    rec.sample(dict(kind="float16 exhaustive, default settings", fn=name, inputs=int(x.size)))
+    contracts.detach_all()
+
+
+TASKS = {"directed": task_directed, "backend": task_backend, "backend_complex": task_backend_complex, "backend_f16": task_backend_f16}
 
 
 def plan(tier, seed):
@@ -407,6 +495,8 @@ def plan(tier, seed):
             t.append(("directed", dict(dtype=dtn, shard=s, n=n, seed=seed)))
         for s in range(nb):
             t.append(("backend", dict(dtype=dtn, shard=s, n=4000, per=per, seed=seed)))
+    for fn in ("exp", "log", "arctan", "arcsinh", "sqrt"):
+        t.append(("backend_f16", dict(fn=fn)))
     for cdtn in ("complex64", "complex128"):
         for s in range(nb):
             t.append(("backend_complex", dict(cdtype=cdtn, shard=s, n=3000, per=60 if tier == "quick" else 600, seed=seed)))
